@@ -3,23 +3,9 @@
 //!   rvh run <Cxx> <quick|thorough>      run a property check (seed from VERIF_SEED)
 //!   rvh replay <file>                   re-run one saved case, bypassing all generators
 //!   rvh envprobe                        (internal) evaluate requests from stdin in this process' environment
-mod child;
-mod engine;
-mod envprobe;
-mod fsalpha;
-mod fsapply;
-mod fsdrive;
-mod fsgen;
-mod fsmodel;
-mod fstypes;
-mod obs;
-mod props;
-mod refpath;
-mod sandbox;
-mod sched;
-mod strgen;
 
-use engine::*;
+use rvh::engine::*;
+use rvh::{envprobe, props};
 use serde_json::Value;
 
 fn seed_from_env() -> u64 {
